@@ -68,6 +68,14 @@ def binop_src(op, node):
     return op.join((node.left.src, node.right.src))
 
 
+def primary_src(node):
+    # the base of `.attr`, `[key]` and `(args)` must be an atom or another primary; `1.real` is not valid either
+    if getattr(node, 'priority', 0) > 2 or isinstance(node, (ast.IfExp, ast.Lambda)) \
+            or (isinstance(node, ast.Constant) and isinstance(node.value, int)):
+        return '(%s)' % node.src
+    return node.src
+
+
 def ast2src(tree):
     src = getattr(tree, 'src', None)
     if src is not None:
@@ -215,13 +223,13 @@ class PythonTranslator(ASTTranslator):
         return binop_src(' ** ', node)
     def postAttribute(translator, node):
         node.priority = 2
-        return '.'.join((node.value.src, node.attr))
+        return '.'.join((primary_src(node.value), node.attr))
     def postCall(translator, node):
         node.priority = 2
         if len(node.args) == 1 and isinstance(node.args[0], ast.GeneratorExp):
-            return node.func.src + node.args[0].src
+            return primary_src(node.func) + node.args[0].src
         args = [ arg.src for arg in node.args ] + [ kw.src for kw in node.keywords ]
-        return '%s(%s)' % (node.func.src, ', '.join(args))
+        return '%s(%s)' % (primary_src(node.func), ', '.join(args))
     def postkeyword(translator, node):
         if node.arg is None:
             return '**' + node.value.src
@@ -239,7 +247,7 @@ class PythonTranslator(ASTTranslator):
             key = repr(x.value)[1:-1]
         else:
             key = x.src
-        return '%s[%s]' % (node.value.src, key)
+        return '%s[%s]' % (primary_src(node.value), key)
     def postIndex(translator, node):  # Python <= 3.7
         return node.value.src
     def postSlice(translator, node):
